@@ -3,7 +3,7 @@
    represents t: p_remove returns normally and the heap represents [remove id_of _ i t]. *)
 From Coq Require Import NArith List Bool Lia PeanoNat.
 From FV Require Import Rb.RbModel Rb.RbInorder Rb.RbInvariant Rb.RbLayout Rb.RbPtr Rb.RbPtrBase Rb.RbPtrRefineRot
-  Rb.RbPtrRefineIns Rb.RbPtrRefineFix Rb.RbPtrRemF Rb.RbPtrRefineRem Rb.RbPtrRefineUnlink Rb.RbPtrRefineReplace.
+  Rb.RbPtrRefineIns Rb.RbPtrRefineFix Rb.RbPtrRemF Rb.RbPtrRefineRem Rb.RbPtrRefineUnlink Rb.RbPtrRefineReplace Rb.RbPtrAnnot.
 Import ListNotations.
 
 Section Remove.
@@ -77,7 +77,9 @@ Section Remove.
     NoDup (ids t) -> rbt t n -> In i (ids t) ->
     reprs None s t ->
     height t + 2 < fuel -> height (remove id_of uagg i t) <= fuel ->
-    exists s', p_remove agg aeqb ek fuel s i = POk s' /\ reprs None s' (remove id_of uagg i t).
+    exists s', p_remove agg aeqb ek fuel s i = POk s' /\ reprs None s' (remove id_of uagg i t)
+               /\ (agg_ok agg aeqb -> tkeys elt id_of ek t -> ainv elt annot id_of agg (p_annots s) t ->
+                   ainv elt annot id_of agg (p_annots s') (remove id_of uagg i t)).
   Proof.
     intros Nd Hrb Hi H Hf Hf2.
     destruct (occ_member elt unit id_of t None i Hi) as (c & l & x & a & r & sp & O & Ex).
@@ -122,7 +124,7 @@ Section Remove.
         rewrite M2.
         destruct (rbt_plug _ _ _ Hrb) as (k1 & Hk1 & Hck1).
         pose proof (height_plug elt ctx1 (T cm lm m tt E)) as Hh1. cbn [height] in Hh1.
-        destruct (remove_half_leaf_ok elt annot id_of agg aeqb ek false fuel ctx1 cm lm m tt s Nd H) as (s1 & E1 & H1); [|lia|].
+        destruct (remove_half_leaf_ok elt annot id_of agg aeqb ek false fuel ctx1 cm lm m tt s Nd H) as (s1 & E1 & H1 & AN1); [|lia|].
         { intros Hs. unfold half in Hs. destruct cm; [discriminate|]. inversion Hk1; subst. eapply crbt_rem_ok. exact Hck1. }
         cbn [hl] in E1. rewrite E1. cbn [pbind].
         (* the intermediate tree t1: the functional result with x still in the place where m will go *)
@@ -141,6 +143,9 @@ Section Remove.
         (* the element at that position is x itself: ids are unique and x occurs in t1 *)
         assert (Nd1' : NoDup (ids t1)) by (apply NoDup_cons_iff in Nd1; tauto).
         rewrite <- EcX in H1, Nd1, Nd1'.
+        assert (Esub : forall e, In e (inorder t1) -> In e (inorder (plug ctx1 (T cm lm m tt E)))).
+        { intros e He. subst t1. rewrite inorder_del_up in He. rewrite inorder_plug in *. subst hf. rewrite inorder_half in He.
+          cbn [inorder]. rewrite !in_app_iff in *. tauto. }
         pose proof (height_plug elt ctxX (T cX lX x' aX rX)) as HhX. cbn [height] in HhX.
         (* the functional side: renaming x to m commutes with the rebalancing *)
         set (f := fun e : elt => if N.eqb (id_of e) (id_of x) then m else e).
@@ -162,9 +167,13 @@ Section Remove.
         assert (Hlen : length ctxX <= fuel) by (rewrite EcX in HhX; lia).
         (* replace_node *)
         assert (Exm : x' = x \/ id_of x' = id_of x) by (right; exact ExX).
-        destruct (replace_node_ok elt annot id_of agg aeqb ek fuel ctxX cX lX x' aX rX m s1 Nd1 H1) as (s2 & E2 & H2); [exact Hlen|].
+        destruct (replace_node_ok elt annot id_of agg aeqb ek fuel ctxX cX lX x' aX rX m s1 Nd1 H1) as (s2 & E2 & H2 & AN2); [exact Hlen|].
         rewrite ExX in E2. exists s2. split; [exact E2|].
-        replace (tmap f t1) with (plug ctxX (T cX lX m tt rX)); [exact H2|].
+        replace (tmap f t1) with (plug ctxX (T cX lX m tt rX)).
+        { split; [exact H2|]. intros Ao Hky Hay. cbn [hl] in AN1. specialize (AN1 Ao Hky Hay).
+          apply AN2; [exact Ao| | |rewrite EcX; exact AN1].
+          - apply Hky. rewrite inorder_plug. rewrite !in_app_iff. right. left. cbn [inorder]. rewrite in_app_iff. right. left. reflexivity.
+          - intros e He. apply Hky, Esub. rewrite <- EcX. exact He. }
         rewrite <- EcX, <- plug_map. cbn [tmap].
         apply NoDup_cons_iff in Nd1. destruct Nd1 as [_ Nd1]. rewrite ids_plug in Nd1. cbn [inorder] in Nd1.
         assert (Ex1 : f x' = m) by (unfold f; rewrite ExX, N.eqb_refl; reflexivity).
